@@ -270,25 +270,9 @@ func (ic *inferContext) inferRelTypesFromPremise(premises []ast.Term, state *inf
 		return []*inferState{nextState}, nil
 
 	case ast.Ineq:
-		nextState := state.makeNext()
-		leftTpe := boundOfArg(t.Left, state.asMap(), bc.nameTrie)
-		rightTpe := boundOfArg(t.Right, state.asMap(), bc.nameTrie)
-
-		tpe := symbols.LowerBound(map[ast.Variable]ast.BaseTerm{}, []ast.BaseTerm{leftTpe, rightTpe})
-		if tpe.Equals(symbols.EmptyType) {
-			return nil, fmt.Errorf("type mismatch %v : left type %v right type %v", premise, leftTpe, rightTpe)
-		}
-		if leftVar, ok := t.Left.(ast.Variable); ok {
-			if err := nextState.addOrRefine(leftVar, tpe); err != nil {
-				return nil, err
-			}
-		}
-		if rightVar, ok := t.Right.(ast.Variable); ok {
-			if err := nextState.addOrRefine(rightVar, tpe); err != nil {
-				return nil, err
-			}
-		}
-		return []*inferState{nextState}, nil
+		// An inequality holds for any two values of different types, so it
+		// says nothing about the types of its operands.
+		return []*inferState{state.makeNext()}, nil
 	}
 	return nil, fmt.Errorf("unexpected state %v", premise)
 }
